@@ -107,9 +107,12 @@ def table2(ctx) -> List[Ob]:
     want = {"cond": 2, "uncond": 1, "term": 0}
     seen_roles = set()
     bparam = fb.params[0].arg if fb.params else "bc"
-    iv_loops = [lp for lp in A.walk_no_nested(fb.node) if isinstance(lp, ast.For) and A.unparse(lp.iter) == bparam and isinstance(lp.target, ast.Name)]
+    from .common import expanded_function
+
+    fbx = expanded_function(fb)  # locals that merely name inst.offset / inst.opname are read through
+    iv_loops = [lp for lp in A.walk_no_nested(fbx) if isinstance(lp, ast.For) and A.unparse(lp.iter) == bparam and isinstance(lp.target, ast.Name)]
     IV = iv_loops[0].target.id if iv_loops else "inst"
-    for n in A.walk_no_nested(fb.node):
+    for n in A.walk_no_nested(fbx):
         if not isinstance(n, ast.If):
             continue
         t = n.test
@@ -149,7 +152,7 @@ def table2(ctx) -> List[Ob]:
             out.append(bad("TABLE-2", fb.qualname, f"{role} arm", ctx.where(fb), f"no arm classifies {role} opcodes in from_bytecode"))
     # block starts: offset 0 / jump targets
     key = "block start at offset 0 and at jump targets"
-    tests = [A.unparse(n.test) for n in A.walk_no_nested(fb.node) if isinstance(n, ast.If)]
+    tests = [A.unparse(n.test) for n in A.walk_no_nested(fbx) if isinstance(n, ast.If)]
     if any("is_jump_target" in t and "offset == 0" in t for t in tests):
         out.append(ok("TABLE-2", fb.qualname, key, ctx.where(fb), "offset 0 and every is_jump_target instruction start a block"))
     else:
@@ -290,7 +293,10 @@ def table6(ctx) -> List[Ob]:
     bb = fi.find_method("build_basicblocks")
     if bb is None:
         raise AnalysisError("FlowInfo.build_basicblocks not found")
-    ctors = [c for c in A.walk_no_nested(bb.node) if isinstance(c, ast.Call) and (A.dotted(c.func) or "").split(".")[-1] == "PythonBytecodeBlock"]
+    from .common import expanded_function
+
+    bbx = expanded_function(bb)  # locals that merely name a selector (self.jump_insts[term]) are read through
+    ctors = [c for c in A.walk_no_nested(bbx) if isinstance(c, ast.Call) and (A.dotted(c.func) or "").split(".")[-1] == "PythonBytecodeBlock"]
     if not ctors:
         raise AnalysisError("no PythonBytecodeBlock(...) in build_basicblocks")
     jt = kw(ctors[0], "_jump_targets")
@@ -299,11 +305,11 @@ def table6(ctx) -> List[Ob]:
         return out
     from .ctrl import _guard_conditions
 
-    assigns = [s for s in A.walk_no_nested(bb.node) if isinstance(s, ast.Assign) and any(isinstance(t, ast.Name) and t.id == jt.id for t in s.targets)]
+    assigns = [s for s in A.walk_no_nested(bbx) if isinstance(s, ast.Assign) and any(isinstance(t, ast.Name) and t.id == jt.id for t in s.targets)]
     seen = set()
     for s in assigns:
         txt = A.unparse(s.value)
-        guards = _guard_conditions(bb.node, s)
+        guards = _guard_conditions(bbx, s)
         key = "successors := " + A.alpha_key(s.value)
         where = ctx.where(bb, s)
         member = [(t, pol) for t, pol in guards if "jump_insts" in t]
